@@ -26,13 +26,22 @@ def generate(streams, tier):
                      state_modes=[("default", 2), ("str", 3), ("int_sorted", 1)], positive=True)
     # strictly positive tables: identification by adjustment presupposes positivity (P(x | z) > 0)
     n = world["n"]
-    if n >= 3 and r.random() < 0.3:
-        world["latents"] = sorted(r.sample(range(n), 1))
+    motif = None
+    if n >= 5 and r.random() < 0.3:
+        motif = _motif(r, world)
+    if motif and motif.get("latents") is not None:
+        world["latents"] = motif["latents"]
+    elif n >= 3 and r.random() < 0.45:
+        # latent variables, preferably mediators / confounders (nodes with a parent and a child, or with two children)
+        ch = {v: [u for u in range(n) if v in world["parents"][u]] for v in range(n)}
+        inner = [v for v in range(n) if (world["parents"][v] and ch[v]) or len(ch[v]) >= 2]
+        pool = inner if inner and r.random() < 0.7 else list(range(n))
+        world["latents"] = sorted(r.sample(pool, 2 if len(pool) >= 2 and n >= 5 and r.random() < 0.3 else 1))
     config = W.gen_bn_config(streams, world)
     rw = streams.s("workload")
     ops = []
     for _ in range(rw.randint(2, 6)):
-        k = weighted(rw, [("do", 3), ("query", 6), ("backdoor", 3), ("all_backdoor", 1), ("frontdoor", 1), ("minimal", 1), ("refused", 1)])
+        k = weighted(rw, [("do", 3), ("query", 6), ("backdoor", 3), ("all_backdoor", 2), ("frontdoor", 1), ("minimal", 1), ("refused", 1)])
         op = {"op": k, "pick": rw.randrange(10**6)}
         if k == "do":
             op["nodes"] = rw.sample(range(n), rw.randint(1, min(2, n)))
@@ -48,7 +57,65 @@ def generate(streams, tier):
             x, y = rw.sample(range(n), 2)
             op["x"], op["y"] = x, y
         ops.append(op)
+    if motif and motif.get("xy"):
+        x, y = motif["xy"]
+        for _ in range(rw.randint(1, 2)):
+            ops.insert(rw.randint(0, len(ops)), {"op": rw.choice(["all_backdoor", "backdoor", "minimal"]), "x": x, "y": y, "pick": rw.randrange(10**6)})
+    if n >= 3 and (rw.random() < 0.35 or (motif and motif.get("w") is not None)):
+        # graph questions, then surgery in place on the same model object, then the same questions again on the operated network
+        x, y, w_ = rw.sample(range(n), 3)
+        if motif and motif.get("w") is not None:
+            (x, y), w_ = motif["xy"], motif["w"]
+        zfix = [w_] if rw.random() < 0.6 else None
+        ops.insert(rw.randint(0, len(ops)), {"op": "backdoor", "x": x, "y": y, "pick": rw.randrange(10**6), "z": zfix})
+        tail = [{"op": "do", "nodes": [w_], "inplace": True, "keep": True, "pick": rw.randrange(10**6)}]
+        for _ in range(rw.randint(1, 3)):
+            tail.append({"op": rw.choice(["backdoor", "backdoor", "all_backdoor", "query_keep"]), "x": x, "y": y, "pick": rw.randrange(10**6), "z": zfix})
+        for t in tail:
+            if t["op"] == "query_keep":
+                t.update({"op": "query", "do": {str(x): rw.randrange(world["card"][x])}, "algo": rw.choice(["ve", "bp"]), "adjust": "default", "ny": 1})
+        ops.extend(tail)
     return {"world": world, "config": config, "ops": ops}
+
+
+def _motif(r, world):
+    """Rewrites the structure of a world with >= 5 nodes into one of two textbook shapes (tables are redrawn, strictly positive)."""
+    n, card = world["n"], world["card"]
+    nodes = shuffled(r, range(n))
+    kind = r.choice(["collider_with_descendant", "latent_mediator"])
+    parents = {v: [] for v in range(n)}
+    out = {}
+    if kind == "collider_with_descendant":
+        # X <- A -> C <- (B -> Y | Y),  C -> W : conditioning on W opens the collider C only while W descends from C
+        if n >= 6 and r.random() < 0.6:
+            a, b, x, c, y, w = nodes[:6]
+            parents[x], parents[c], parents[y], parents[w] = [a], [a, b], [b], [c]
+            rest = nodes[6:]
+        else:
+            a, x, c, y, w = nodes[:5]
+            parents[x], parents[c], parents[w] = [a], [a, y], [c]
+            rest = nodes[5:]
+        if r.random() < 0.3:
+            parents[y] = parents[y] + [x]
+        for v in rest:
+            parents[v] = [r.choice([w, c])] if r.random() < 0.5 else []
+        out = {"xy": [x, y], "w": w, "latents": None}
+    else:
+        # U -> X -> L -> D -> Y, U -> D with L unobserved: D blocks the back-door path but descends from X through L
+        u, x, l, d, y = nodes[:5]
+        parents[x], parents[l], parents[d], parents[y] = [u], [x], [u, l], [d]
+        if r.random() < 0.4:
+            parents[y] = parents[y] + [x]
+        for v in nodes[5:]:
+            parents[v] = [r.choice([u, d, y])] if r.random() < 0.5 else []
+        out = {"xy": [x, y], "w": None, "latents": [l]}
+    for v in range(n):
+        ps = [p for p in parents[v]]
+        r.shuffle(ps)
+        world["parents"][v] = ps
+        world["tables"][v] = W.gen_table(r, card[v], [card[p] for p in ps])
+    world["flags"]["motif"] = kind
+    return out
 
 
 def describe(case):
@@ -155,6 +222,24 @@ def execute(case, ctx):
         ctx.steps += 1
         k = op["op"]
         try:
+            if k == "do" and op.get("keep") and op.get("inplace"):
+                nfail = len(ctx.failures)
+                _do(ctx, op, world, names, model)
+                if len(ctx.failures) != nfail:
+                    return
+                # the history goes on with the operated network: the reference world gets the same surgery
+                world = copy.deepcopy(world)
+                for v in op["nodes"]:
+                    if v < n and world["parents"][v]:
+                        tab = world["tables"][v]
+                        world["tables"][v] = [[sum(row) / len(row)] for row in tab]
+                        world["parents"][v] = []
+                edges = edges_of(world)
+                config = dict(config, edge_order=[e for e in config["edge_order"] if (e[0], e[1]) in set(edges)])
+                pristine = snapshot_bn(model)
+                ctx.fault("object_history")
+                ci = CausalInference(model)
+                continue
             if k == "do":
                 _do(ctx, op, world, names, model)
                 model = build_bn(world, config, names) if snapshot_bn(model) != pristine else model
@@ -317,6 +402,8 @@ def _criteria(ctx, op, world, names, ci, edges, lat):
     ctx.event(k, x, y)
     if k == "backdoor":
         z = rr.sample(nondesc, rr.randint(0, len(nondesc)))
+        if op.get("z") is not None and all(v in nondesc for v in op["z"]):
+            z = list(op["z"])
         got = bool(ci.is_valid_backdoor_adjustment_set(L(x), L(y), [L(v) for v in z]))
         want = backdoor_valid(n, edges, x, y, z)
         ctx.checked += 1
